@@ -134,7 +134,7 @@ theorem builder_reuse_one_shot (ext : Ext) (dn : List Field → List Arr → R D
       simp [List.getElem?_map, List.getElem?_eq_getElem hk2]
 
 /-- … and what the arrays mean: under the hypotheses of `C10.C10_histories` (schema within the covered fragment, no raw
-calls) and `hA` / `hB` (a converted array decodes to what the marrow array decodes to — the hypotheses of
+calls; NO `Safe` hypothesis — `Props.C01.C01_build_decode'`, the hidden-rows refinement) and `hA` / `hB` (a converted array decodes to what the marrow array decodes to — the hypotheses of
 `backends_agree`, validated by the `backend` suite), the arrays of build k — marrow's, arrow's, arrow2's, the columns of a
 record batch — decode, column by column, to the documented values of the records of batch k. -/
 theorem builder_reuse_decodes (ext : Ext) (dn : List Field → List Arr → R D) (de : D → R Out)
@@ -144,7 +144,6 @@ theorem builder_reuse_decodes (ext : Ext) (dn : List Field → List Arr → R D)
     (hB : ∀ a ba, cvB.arrayOfMarrow a = .ok ba → decodeB ba = Spec.decodeAll a)
     (fields : List Field) (self : ArrayBuilder B) (h0 : ArrayBuilder.new (histCore ext dn de) fields = .ok self)
     (hschema : ∀ f ∈ fields, Lemmas.C03.SchemaOKF f) (hcov : fields.all Build.coveredF = true)
-    (hsafe : Safe self.builder)
     (ops : List (HOp Add)) (hraw : C10.OpsOK (fun x => noRaw x = true) (ops.map toOp))
     (outs : List (R (Built AF AA BA))) (fin : ArrayBuilder B)
     (h : runHistory (histCore ext dn de) cvA cvB validate self ops = .ok (outs, fin))
@@ -180,8 +179,7 @@ theorem builder_reuse_decodes (ext : Ext) (dn : List Field → List Arr → R D)
           (List.mem_of_getElem? hrows)
         exact this
       obtain ⟨hd1, cols, hd2, hd3, hd4, hd5⟩ :=
-        Props.C01.C01_build_decode ext fields rows arrays hschema hcov
-          (fun root0 hr' => by rw [hr] at hr'; cases hr'; exact hsafe) (fun x hx => noRaw_ssa x (hrows_ok x hx))
+        Props.C01.C01_build_decode' ext fields rows arrays hschema hcov (fun x hx => noRaw_ssa x (hrows_ok x hx))
           (Or.inl hrows_ok) hone
       exact ⟨hd1, cols, hd2, hd3, hd4, hd5⟩
   refine ⟨arrays, hdec, ?_⟩
@@ -267,6 +265,18 @@ example : ∀ outs fin, runHistory exCore Conv.id Conv.id exValidate { builder :
   intro outs fin h
   have := (builder_reuse_one_shot {} _ _ Conv.id Conv.id exValidate exFields _ exBuilder exHistory outs fin h).2.2.2.2
   exact this 2 .recordBatch _ (by decide) (by decide)
+
+/-- `builder_reuse_decodes` applies to it with every hypothesis discharged (identity conversions): the third build — a
+record batch — holds columns that decode to the documented values of the two records of batch 2 -/
+example : ∀ outs fin, runHistory exCore Conv.id Conv.id exValidate { builder := exRoot0, schema := exFields } exHistory =
+      .ok (outs, fin) → ∀ b, outs[2]? = some (.ok b) →
+    ∃ arrays, DecodesTo {} exFields arrays [exRec "z" [], .record "R" (.cons "d" 0 (.str "z") .nil)] := by
+  intro outs fin h b hb
+  obtain ⟨arrays, hd, _⟩ := builder_reuse_decodes {} _ _ Conv.id Conv.id exValidate Spec.decodeAll Spec.decodeAll
+    (by intro a aa h; cases h; rfl) (by intro a aa h; cases h; rfl) exFields _ exBuilder
+    (by simp [exFields, Lemmas.C03.SchemaOKF, Lemmas.C03.SchemaOK]) (by decide) exHistory
+    (by unfold OpsOK; decide) outs fin h 2 [exRec "z" [], .record "R" (.cons "d" 0 (.str "z") .nil)] (by decide) b hb
+  exact ⟨arrays, hd⟩
 
 end examples
 
